@@ -101,6 +101,74 @@ def capture_button(directory):
         return f.read()
 
 
+def web_cycles(chk, rng, stats, n):
+    """capture and replay as the web front end does, several times over with ONE WebApp: Capture
+    (WebApp.snapshot), the lights change, the snapshot script is queued (WebApp.queue_file) and
+    runs; then the lights are captured in another state, change again, and the snapshot script is
+    queued again.  Every replay restores the state of the capture before it."""
+    import shutil
+    import tempfile
+    import time as _time
+    from core import REPO
+    if REPO not in sys.path:
+        sys.path.insert(0, REPO)
+    from bardolph.lib import settings
+    from web.web_app import WebApp
+
+    def restate(pop):
+        out = copy.deepcopy(pop)
+        for s in out:
+            s['color'] = rand_color(rng)
+            s['power'] = rng.choice([0, 65535])
+            if 'zones' in s:
+                s['zones'] = [rand_color(rng) for _ in s['zones']]
+            if 'cells' in s:
+                s['cells'] = [rand_color(rng) for _ in s['cells']]
+        return out
+
+    stats['web_cycles'] = 0
+    for _ in range(n):
+        base = [s for s in rand_population(rng, 4) if not s['label'].endswith('\\')]
+        scratch = tempfile.mkdtemp(prefix='c18_web_')
+        try:
+            simnet.install(copy.deepcopy(base))
+            settings.Settings._the_config['script_path'] = scratch
+            settings.Settings._the_config['manifest_file_name'] = None
+            app = WebApp()
+            for cycle in range(3):
+                captured = restate(base)
+                simnet.install(copy.deepcopy(captured))
+                settings.Settings._the_config['script_path'] = scratch
+                app.snapshot()
+                net, ls, trace = simnet.install(restate(base))
+                settings.Settings._the_config['script_path'] = scratch
+                app.queue_file('__snapshot__.ls')
+                deadline = _time.monotonic() + 5
+                while app._jobs.has_jobs() and _time.monotonic() < deadline:
+                    _time.sleep(0.002)
+                chk.count()
+                stats['web_cycles'] += 1
+                if app._jobs.has_jobs():
+                    app._jobs.stop_current()
+                    chk.violation('snapshot-replay-aborts', 'the queued snapshot script did not finish',
+                                  {'population': captured, 'cycle': cycle})
+                    break
+                bad = [s for s in captured if device_observable(net.device(s['label'])) != observable(s)]
+                if bad:
+                    s0 = bad[0]
+                    chk.violation('replay-runs-an-earlier-capture' if cycle else 'snapshot-replay-state-differs',
+                                  'capture/replay cycle {} through one web application: {} light {!r} captured {} / '
+                                  'after replay {}'.format(cycle + 1, s0['kind'], s0['label'], str(observable(s0))[:100],
+                                                           str(device_observable(net.device(s0['label'])))[:100]),
+                                  {'population': captured, 'cycle': cycle + 1,
+                                   'how': 'harness/c18.py web_cycles: WebApp.snapshot / WebApp.queue_file'})
+                    break
+                if captured:
+                    chk.nontrivial_case(('web-cycle', cycle, enc_pop_state(captured)[0]))
+        finally:
+            shutil.rmtree(scratch, ignore_errors=True)
+
+
 def main():
     chk = Check('C18', extra_modules=['Bardolph.Proofs.SemSteps'])
     chk.lean_phase(sections=set())
@@ -217,6 +285,7 @@ def main():
         reqs.append(('snap.text', enc_pop_state(pop)))
         texts.append(text)
     # ---- tie: the model's snapshot text, byte for byte
+    web_cycles(chk, rng, stats, 120 if chk.thorough else 25)
     answers = chk.driver.ask_many(reqs) if reqs else []
     for text, a in zip(texts, answers):
         if a != percent_encode(text):
